@@ -560,6 +560,8 @@ def c18(run):
     cands(run, "C18", "emoji")
     r1 = run.rule
     run.rule = r1 + "  ||  " + fcands(run, "C18", "emoji")
+    # emoji inside whole sessions (ANSI switched on and off by update-engine, contexts created in ANSI mode, words typed again)
+    shadow_trace(run, "C18", "emoji")
     design_candidates(run, ["EmojiTableOrder", "NoEmojiBeforeExact"], 1, 3)
     design_fixedlist(run, ["FEmojiPrefix", "FEmojiAllIfRoom", "FEmoticonShown"], 2, 12)
 
